@@ -89,6 +89,11 @@ func HRepeat() {
 		}
 	}
 	got := vEmit(c)
+	for i := range ref {
+		if i < len(got) && got[i] != ref[i] {
+			vObserve("diff", ref[i], got[i])
+		}
+	}
 	vAssert(len(got) == len(ref), "c16-serialisation-depends-on-earlier-calls-entity-count")
 	for i := range ref {
 		vAssert(got[i] == ref[i], "c16-serialisation-depends-on-earlier-calls")
